@@ -49,7 +49,7 @@ func codecSpace(e *harness.Env) {
 		case sig != "":
 			e.Fail(desc, sig, det, nil)
 		default:
-			e.Pass(desc, c > 0, fmt.Sprintf("codec:letters%d", len(xlsxw.ColName(c))))
+			e.Pass(desc, c >= 26, fmt.Sprintf("codec:letters%d", len(xlsxw.ColName(c))))
 		}
 	}
 	malformed(e)
